@@ -69,6 +69,8 @@ def rhs(bkind, M, V, n, tok, seed):
     c = np.iscomplexobj(M)
     g = P.rng(seed, "c13rhs", bkind, n, tok)
     rnd = lambda *s: g.standard_normal(s) + (1j * g.standard_normal(s) if c else 0)  # noqa: E731
+    if bkind == "empty":  # a block of zero right-hand sides
+        return np.zeros((n, 0), dtype=M.dtype), None
     if bkind == "rand1":
         return rnd(n), None
     if bkind == "lowp":  # a right-hand side in a NARROWER dtype than the operator: the solve runs in the promoted dtype
@@ -243,7 +245,7 @@ def cases(tier, seed):
     for tok in ("f8", "c16"):
         for n in small:
             ms = list(range(1, n + 4))
-            for bk in ("rand1", "rand3", "e1", "zerocol", "mix2", "lowp", "intrhs"):
+            for bk in ("rand1", "rand3", "e1", "zerocol", "mix2", "lowp", "intrhs", "empty"):
                 if bk == "mix2" and n < 2:
                     continue
                 for x0k in ("none", "rand"):
